@@ -559,9 +559,11 @@ def run_check(prop_id, tier, seed):
         'wall_s': round(wall, 2),
         'violations': len(violations),
     }
+    # evidence/ describes runs against /repo itself; runs against a scratch copy (VERIF_REPO) go to evidence_scratch/
+    evdir = 'evidence' if os.path.realpath(REPO_DIR) == os.path.realpath('/repo') else 'evidence_scratch'
     if not errors or totals['evaluations'] > 0:
-        os.makedirs(os.path.join(VERIF_DIR, 'evidence'), exist_ok=True)
-        with open(os.path.join(VERIF_DIR, 'evidence', '%s.json' % prop_id), 'w') as f:
+        os.makedirs(os.path.join(VERIF_DIR, evdir), exist_ok=True)
+        with open(os.path.join(VERIF_DIR, evdir, '%s.json' % prop_id), 'w') as f:
             json.dump(evidence, f, indent=1, sort_keys=True, default=_json_default)
 
     for line in known_lines:
